@@ -6,6 +6,30 @@ TECH = "deterministic simulation with fault injection (seeded schedules/faults, 
 
 # property -> (claimed?, level category, level text, level note, design ref)
 CLAIMED = {
+ "C03": ("exploration",
+   "Seeded search over arrival orders of validly signed votes (all five kinds, honest-pattern and Byzantine signers, duplicates), received certificates and block registrations fed to one real PoolImpl; after every step every certificate the pool creates is checked against an independent accepted-vote table: created only when and as soon as the threshold is reached, once, with exactly the accepted matching voters as signers, and accepted by ValidatedCert::try_new. The cluster world additionally validates every certificate a correct node broadcasts.",
+   "Trusts the memoisation of signature checks (same keys, same messages per process) and the harness' reverse mapping of synthetic block hashes; stake distributions are the five families of sim/src/keys.rs; 3-10 validators.",
+   "DESIGN.md §7 C03"),
+ "C04": ("fault_enumeration",
+   "Every add_vote verdict in the sampled pool histories is compared with an order-free admission table derived from the property statement, and every run completely enumerates all ordered pairs of the five vote kinds x {same, different} block from one validator on fresh slots, so each pairwise conflict/legitimate combination is decided in both arrival orders; longer sequences are sampled.",
+   "The pair enumeration is complete for pairs only; triples and longer sequences are sampled. Same trusted base as C03.",
+   "DESIGN.md §7 C04"),
+ "C06": ("exploration",
+   "SafeToNotar/SafeToSkip events of a real PoolImpl are compared after every step of sampled histories with the reference predicate (own initial vote, stake conditions at 20/40/60%, block registered, parent certified by a held notar/notar-fallback/fast-final certificate): never raised otherwise, never twice, and raised in the step where the last condition arrives - whichever of a vote, the own vote, the block or the parent certificate that is.",
+   "Blocks whose parent is genesis, slots already decided, and blocks the own validator already voted notar-fallback for are exempt from the 'as soon as' half (stated in DESIGN §7 C06).",
+   "DESIGN.md §7 C06"),
+ "C07": ("exploration",
+   "Protocol-consistent multi-window histories (forks, skips, gaps, fast/slow finalization) are delivered to a real PoolImpl as certificates or the votes forming them plus block registrations in sampled orders with pruning in between; parents_ready, ParentReady events and registered waiters are compared after every step with reference reachability over the certificates held.",
+   "One narrow relaxation: pairs that become ready in a step that also reports a finalization need not be announced (the pool announces only the highest-window pair of a finalization event). One waiter per slot (the tracker's contract).",
+   "DESIGN.md §7 C07"),
+ "C08": ("exploration",
+   "Same histories as C07; finalized_slot, the finalization log (hook H5), the pruning watermark, retained slots and SlotOutOfBounds verdicts are compared after every step with the reference 'FastFinal or (Final and Notar), closed under known parent links'. A tripped safety assertion on these consistent histories is reported as a violation.",
+   "The history generator is consistent with <20% Byzantine stake by construction (sim/src/kworld.rs); inconsistent histories are out of scope for this check (they are C01's subject).",
+   "DESIGN.md §7 C08"),
+ "C18": ("exploration",
+   "recover_from_standstill() is triggered after sampled prefixes (including the empty one) of vote-level and certificate-level pool histories; the bundle must prove the finalized slot, contain every later certificate held and every own vote for later slots, validate element by element, and bring a fresh pool to the same finalized slot (and, on consistent histories, the same ready parents for the following window).",
+   "Prefixes are sampled, not all enumerated. Votor's forwarding of the bundle is exercised in the cluster world (real standstill loop under hook H1), not here.",
+   "DESIGN.md §7 C18"),
  "C01": ("exploration",
    "Seeded search over executions of 4-9 real nodes on a simulated transport and clock with loss, duplication, reordering, delay, partitions, crashes, stalls and <20%-stake Byzantine voters/leaders; agreement, single-chain and finalized-vs-skip oracles evaluated on every finalization record and certificate on the wire. Sampling, so evidence not proof - the right level for a safety property quantified over schedules and adversaries.",
    "Trusts: tokio's paused clock and current-thread scheduler as the only sources of time/interleaving (hooks H1/H2 remove the others); Byzantine behaviour is limited to the strategy library in sim/src/adv.rs; N<=9.",
